@@ -3,6 +3,7 @@ package main
 import (
 	"fmt"
 	"os"
+	"runtime"
 	"strconv"
 	"sync"
 	"sync/atomic"
@@ -19,6 +20,16 @@ func conc(c *Case) {
 	cc := c.Conc
 	if cc == nil {
 		fatal("no conc case")
+	}
+	if cc.GoMaxProcs > 0 {
+		runtime.GOMAXPROCS(cc.GoMaxProcs)
+	}
+	if cc.HookSleepMicros > 0 {
+		seccomp.VerifPoint = func(name string) {
+			if name == "post-prctl" {
+				time.Sleep(time.Duration(cc.HookSleepMicros) * time.Microsecond)
+			}
+		}
 	}
 	ws := startWorkers(len(cc.Plans))
 	start := time.Now()
@@ -43,6 +54,9 @@ func conc(c *Case) {
 			defer wg.Done()
 			w.do(func() any {
 				for !goFlag.Load() {
+					if cc.GoMaxProcs > 0 {
+						runtime.Gosched()
+					}
 				}
 				var x uint64
 				if ti < len(cc.Jitter) {
